@@ -780,11 +780,12 @@ func (s *session) drainMessageIn() {
 	s.log.OnEventf("Draining %d messages from inbound channel...", len(s.messageIn))
 	for {
 		select {
-		case fixInc, ok := <-s.messageIn:
+		case _, ok := <-s.messageIn:
 			if !ok {
 				return
 			}
-			s.Incoming(s, fixInc)
+			// The session has ended. What the counterparty sent behind the message that ended it is
+			// not processed: its sequence numbers are not consumed, so it is recovered at the next logon.
 		default:
 			return
 		}
